@@ -53,7 +53,8 @@ type (
 	}
 
 	headResponse struct {
-		size int
+		size  int
+		wrote bool // 是否已经调用过 Write，之后的 WriteHeader 同 GET 一样不再启作用。
 		http.ResponseWriter
 	}
 )
@@ -358,9 +359,16 @@ func (p *Prefix[T]) Resource(pattern string, m ...types.Middleware[T]) *Resource
 // Router 返回与当前资源关联的 [Router] 实例
 func (r *Resource[T]) Router() *Router[T] { return r.router }
 
+func (resp *headResponse) WriteHeader(status int) {
+	if !resp.wrote { // GET 请求在输出内容之后，状态码已经发送，再次调用 WriteHeader 是无效的。
+		resp.ResponseWriter.WriteHeader(status)
+	}
+}
+
 func (resp *headResponse) Write(bs []byte) (int, error) {
 	l := len(bs)
 	resp.size += l
+	resp.wrote = true
 
 	resp.Header().Set(header.ContentLength, strconv.Itoa(resp.size))
 	return l, nil
